@@ -917,17 +917,22 @@ impl<'a> BenchContext<'a> {
                 }
             };
 
+            // If this thread unwinds out of the sample (e.g. the benchmarked
+            // function panics), this performs its outstanding barrier waits so
+            // that the other threads are not left blocked forever.
+            let sync_guard = SyncGuard::new(barrier);
+
             // Synchronize all threads to start timed section simultaneously and
             // clear every thread's memory profiling info.
             //
             // This ensures work external to the timed section does not affect
             // the timing of other threads.
             let sync_threads = |is_start: bool| {
-                sync_impl(barrier, is_start);
+                sync_impl(&sync_guard, is_start);
 
                 // Monomorphize implementation to reduce code size.
                 #[inline(never)]
-                fn sync_impl(barrier: Option<&Barrier>, is_start: bool) {
+                fn sync_impl(sync_guard: &SyncGuard, is_start: bool) {
                     // Ensure benchmarked section has a `ThreadAllocInfo`
                     // allocated for the current thread and clear previous info.
                     let alloc_info = if is_start {
@@ -939,9 +944,7 @@ impl<'a> BenchContext<'a> {
                     // Synchronize all threads.
                     //
                     // This is the final synchronization point for the end.
-                    if let Some(barrier) = barrier {
-                        barrier.wait();
-                    }
+                    sync_guard.wait();
 
                     if let Some(mut alloc_info) = alloc_info {
                         // SAFETY: We have exclusive access.
@@ -950,9 +953,9 @@ impl<'a> BenchContext<'a> {
                         alloc_info.clear();
 
                         // Synchronize all threads.
-                        if let Some(barrier) = barrier {
-                            barrier.wait();
-                        }
+                        sync_guard.wait();
+                    } else if is_start {
+                        sync_guard.skip_wait();
                     }
                 }
             };
@@ -1417,6 +1420,54 @@ impl BenchContext<'_> {
     /// Verification hook: whether statistics would be computed for this run.
     pub(crate) fn shared_action_is_bench(&self) -> bool {
         self.shared_context.action.is_bench()
+    }
+}
+
+/// Tracks the barrier waits a thread performs per sample: two before the timed
+/// section (around clearing allocation info) and one after.
+///
+/// Every thread must arrive at each barrier the same number of times. If a
+/// thread unwinds mid-sample, dropping this performs the waits it still owes so
+/// that the other threads can finish the sample and the panic gets reported.
+struct SyncGuard<'a> {
+    barrier: Option<&'a Barrier>,
+    remaining_waits: std::cell::Cell<u8>,
+}
+
+impl<'a> SyncGuard<'a> {
+    const WAITS_PER_SAMPLE: u8 = 3;
+
+    #[inline]
+    fn new(barrier: Option<&'a Barrier>) -> Self {
+        Self {
+            barrier,
+            remaining_waits: std::cell::Cell::new(Self::WAITS_PER_SAMPLE),
+        }
+    }
+
+    #[inline]
+    fn skip_wait(&self) {
+        self.remaining_waits.set(self.remaining_waits.get().saturating_sub(1));
+    }
+
+    #[inline]
+    fn wait(&self) {
+        self.skip_wait();
+
+        if let Some(barrier) = self.barrier {
+            barrier.wait();
+        }
+    }
+}
+
+impl Drop for SyncGuard<'_> {
+    #[inline]
+    fn drop(&mut self) {
+        if let Some(barrier) = self.barrier {
+            for _ in 0..self.remaining_waits.get() {
+                barrier.wait();
+            }
+        }
     }
 }
 
